@@ -15,6 +15,7 @@ echo "== demo without change"; cargo test --offline --test seeded_demo 2>&1 | gr
 git apply patch.diff
 mkdir -p /verif/seeded/$NAME && cp patch.diff /verif/seeded/$NAME/ && cp $DEMO /verif/seeded/$NAME/ && cp NOTES.md /verif/seeded/$NAME/ 2>/dev/null
 cd /verif
+unset CARGO_TARGET_DIR
 git -C /repo apply /verif/seeded/$NAME/patch.diff || exit 3
 for P in "$@"; do ./check $P | tail -2; done
 git -C /repo checkout -- .
